@@ -12,6 +12,7 @@
 #include <stdio.h>
 #include <stdlib.h>
 #include <string.h>
+#include <stdint.h>
 
 #include "fileio/read_srec.h"
 
@@ -64,7 +65,7 @@ int read_srec(const char *filename, Memory *memory)
   int n;
   int start_address = 0;
   int line = 0;
-  int start, end;
+  int64_t start, end;
 
   memory->clear();
 
@@ -139,15 +140,20 @@ int read_srec(const char *filename, Memory *memory)
     printf("    address: %04x (%d)\n", address, address);
 #endif
 
-    if (start == -1)
     {
-      start = address;
-      end = address + byte_count - 1;
-    }
-      else
-    {
-      if (address < start) { start = address; }
-      if (address + byte_count > end) { end = address + byte_count - 1; }
+      // Addresses are unsigned 32 bit.
+      const int64_t a = (uint32_t)address;
+
+      if (start == -1)
+      {
+        start = a;
+        end = a + byte_count - 1;
+      }
+        else
+      {
+        if (a < start) { start = a; }
+        if (a + byte_count > end) { end = a + byte_count - 1; }
+      }
     }
 
     for (n = 0; n < byte_count; n++)
